@@ -874,6 +874,8 @@ impl<B> Flow<B, Redirect> {
         }
         request.unset_header("cookie")?;
         request.unset_header("content-length")?;
+        // The body framing of the previous request is not the framing of this one.
+        request.unset_header("transfer-encoding")?;
 
         // TODO(martin): clear out unwanted headers
 
